@@ -82,6 +82,8 @@ def bl_balance(case, ctx):
                 args += ["--chunksize", str(case["chunk"])]
             if case.get("nproc"):
                 args += ["--nproc", str(case["nproc"])]          # (the command's default is 8 worker processes)
+            if "ignore_dist" in case:
+                args += ["--ignore-dist", str(case["ignore_dist"])]
             if o["mode"] == "cis":
                 args.append("--cis-only")
             if o["mode"] == "trans":
